@@ -905,4 +905,340 @@ theorem tbl_fresh_not_mem (existing : List String) (name : String) (fuel : Nat)
       intro hmem
       exact hc (List.contains_iff_mem.2 hmem)
 
+variable {K : Type} [Field K] [LinearOrder K] [IsStrictOrderedRing K]
+
+/-- `has_nulls` as 0/1 (string column) -/
+def tbl_sHasNulls (feature : List (Option String)) : Nat := if feature.any (·.isNone) then 1 else 0
+/-- `n_bins_ef` (string column) -/
+def tbl_sNBinsEf (nBins : Nat) (feature : List (Option String)) : Nat :=
+  max 1 (nBins - tbl_sHasNulls feature)
+/-- comparator of `value_counts(sort=True)` + natural order for ties -/
+def tbl_vcLe (enumOrder : Option (List String)) (feature : List (Option String)) (a b : String) : Bool :=
+  if countOcc feature a > countOcc feature b then true
+  else if countOcc feature a < countOcc feature b then false
+  else !(catLt enumOrder b a)
+/-- the sorted value counts -/
+def tbl_vc (enumOrder : Option (List String)) (feature : List (Option String)) : List String :=
+  (distinctVals feature).mergeSort (tbl_vcLe enumOrder feature)
+/-- the values a fresh name must avoid -/
+def tbl_existing (enumOrder : Option (List String)) (feature : List (Option String)) : List String :=
+  match enumOrder with
+  | some cats => cats
+  | none => distinctVals feature
+/-- the categories kept -/
+def tbl_keep (enumOrder : Option (List String)) (nBins : Nat) (feature : List (Option String)) :
+    List String :=
+  (tbl_vc enumOrder feature).take (tbl_sNBinsEf nBins feature - 1)
+/-- number of pooled categories -/
+def tbl_nRemaining (enumOrder : Option (List String)) (nBins : Nat) (feature : List (Option String)) : Nat :=
+  (tbl_vc enumOrder feature).length - (tbl_sNBinsEf nBins feature - 1)
+/-- the pooled name -/
+def tbl_name (enumOrder : Option (List String)) (nBins : Nat) (feature : List (Option String)) : String :=
+  binString.fresh (tbl_existing enumOrder feature)
+    ("other " ++ formatInteger (tbl_nRemaining enumOrder nBins feature))
+    ((tbl_existing enumOrder feature).length + 1)
+
+theorem tbl_binString_eq (enumOrder : Option (List String)) (nBins : Nat) (feature : List (Option String)) :
+    binString enumOrder nBins feature =
+      if tbl_sNBinsEf nBins feature ≥ (tbl_vc enumOrder feature).length then
+        ⟨(tbl_vc enumOrder feature).length + tbl_sHasNulls feature, feature, none⟩
+      else
+        ⟨tbl_sNBinsEf nBins feature + tbl_sHasNulls feature,
+         feature.map (fun v => v.map (fun s =>
+           if (tbl_keep enumOrder nBins feature).contains s then s else tbl_name enumOrder nBins feature)),
+         some (tbl_name enumOrder nBins feature)⟩ := by
+  by_cases h : tbl_sNBinsEf nBins feature ≥ (tbl_vc enumOrder feature).length
+  · rw [if_pos h]
+    unfold binString
+    exact if_pos h
+  · rw [if_neg h]
+    unfold binString
+    refine (if_neg h).trans ?_
+    show StrBinning.mk _ (List.map _ feature) _ = StrBinning.mk _ (List.map _ feature) _
+    congr 1
+    apply List.map_congr_left
+    intro v _
+    cases v with
+    | none => rfl
+    | some s =>
+      show (if (tbl_keep enumOrder nBins feature).contains s = true then some s
+        else some (tbl_name enumOrder nBins feature)) =
+        some (if (tbl_keep enumOrder nBins feature).contains s = true then s
+          else tbl_name enumOrder nBins feature)
+      by_cases hk : (tbl_keep enumOrder nBins feature).contains s = true
+      · rw [if_pos hk, if_pos hk]
+      · rw [if_neg hk, if_neg hk]
+
+variable {K : Type} [Field K] [LinearOrder K] [IsStrictOrderedRing K]
+
+theorem tbl_name_not_mem (enumOrder : Option (List String)) (nBins : Nat) (feature : List (Option String)) :
+    tbl_name enumOrder nBins feature ∉ tbl_existing enumOrder feature := by
+  unfold tbl_name
+  apply tbl_fresh_not_mem
+  exact Nat.lt_succ_of_le List.countP_le_length
+
+theorem tbl_name_form (enumOrder : Option (List String)) (nBins : Nat) (feature : List (Option String)) :
+    ∃ u, tbl_name enumOrder nBins feature =
+      String.mk (List.replicate u '_') ++ "other " ++ formatInteger (tbl_nRemaining enumOrder nBins feature) := by
+  obtain ⟨u, hu⟩ := tbl_fresh_form (tbl_existing enumOrder feature)
+    ("other " ++ formatInteger (tbl_nRemaining enumOrder nBins feature))
+    ((tbl_existing enumOrder feature).length + 1)
+  exact ⟨u, by rw [String.append_assoc]; exact hu⟩
+
+theorem tbl_bins_row_str (enumOrder : Option (List String)) (nBins : Nat) (feature : List (Option String))
+    (r : Nat) :
+    (binString enumOrder nBins feature).bins[r]? =
+      if tbl_sNBinsEf nBins feature ≥ (tbl_vc enumOrder feature).length then feature[r]?
+      else (feature[r]?).map (fun v => v.map (fun s =>
+        if (tbl_keep enumOrder nBins feature).contains s then s else tbl_name enumOrder nBins feature)) := by
+  rw [tbl_binString_eq]
+  split
+  · rfl
+  · simp only [List.getElem?_map]
+
+theorem tbl_pooled_str (enumOrder : Option (List String)) (nBins : Nat) (feature : List (Option String)) :
+    (binString enumOrder nBins feature).pooled =
+      if tbl_sNBinsEf nBins feature ≥ (tbl_vc enumOrder feature).length then none
+      else some (tbl_name enumOrder nBins feature) := by
+  rw [tbl_binString_eq]
+  split <;> rfl
+
+theorem tbl_nBins_str (enumOrder : Option (List String)) (nBins : Nat) (feature : List (Option String)) :
+    (binString enumOrder nBins feature).nBins =
+      (if tbl_sNBinsEf nBins feature ≥ (tbl_vc enumOrder feature).length then (tbl_vc enumOrder feature).length
+      else tbl_sNBinsEf nBins feature) + tbl_sHasNulls feature := by
+  rw [tbl_binString_eq]
+  split <;> rfl
+
+theorem tbl_mem_vc (enumOrder : Option (List String)) (feature : List (Option String)) (s : String) :
+    s ∈ tbl_vc enumOrder feature ↔ some s ∈ feature := by
+  unfold tbl_vc
+  rw [List.mem_mergeSort, tbl_mem_distinctVals]
+
+theorem tbl_vc_nodup (enumOrder : Option (List String)) (feature : List (Option String)) :
+    (tbl_vc enumOrder feature).Nodup :=
+  (List.mergeSort_perm _ _).nodup_iff.2 (tbl_distinctVals_nodup feature)
+
+theorem tbl_vc_length (enumOrder : Option (List String)) (feature : List (Option String)) :
+    (tbl_vc enumOrder feature).length = (distinctVals feature).length := List.length_mergeSort _
+
+/-! the comparator is a total preorder -/
+
+theorem tbl_vcLe_iff (enumOrder : Option (List String)) (feature : List (Option String)) (a b : String) :
+    tbl_vcLe enumOrder feature a b = true ↔
+      countOcc feature a > countOcc feature b ∨
+      (countOcc feature a = countOcc feature b ∧ catLt enumOrder b a = false) := by
+  unfold tbl_vcLe
+  by_cases h1 : countOcc feature a > countOcc feature b
+  · simp [h1]
+  · by_cases h2 : countOcc feature a < countOcc feature b
+    · rw [if_neg h1, if_pos h2]
+      constructor
+      · intro h; exact Bool.noConfusion h
+      · rintro (h | ⟨h, _⟩)
+        · exact absurd h h1
+        · omega
+    · rw [if_neg h1, if_neg h2]
+      have : countOcc feature a = countOcc feature b := by omega
+      simp [this]
+
+theorem tbl_catLt_total (enumOrder : Option (List String)) (a b : String) :
+    catLt enumOrder a b = false ∨ catLt enumOrder b a = false := by
+  cases enumOrder with
+  | none =>
+    simp only [catLt, decide_eq_false_iff_not]
+    by_cases h : a < b
+    · exact Or.inr (String.lt_asymm h)
+    · exact Or.inl h
+  | some cats =>
+    simp only [catLt, decide_eq_false_iff_not]
+    omega
+
+theorem tbl_catLt_trans (enumOrder : Option (List String)) (a b c : String)
+    (h1 : catLt enumOrder b a = false) (h2 : catLt enumOrder c b = false) :
+    catLt enumOrder c a = false := by
+  cases enumOrder with
+  | none =>
+    simp only [catLt, decide_eq_false_iff_not, String.not_lt] at *
+    exact String.le_trans h1 h2
+  | some cats =>
+    simp only [catLt, decide_eq_false_iff_not] at *
+    omega
+
+theorem tbl_vcLe_total (enumOrder : Option (List String)) (feature : List (Option String)) (a b : String) :
+    (tbl_vcLe enumOrder feature a b || tbl_vcLe enumOrder feature b a) = true := by
+  rw [Bool.or_eq_true, tbl_vcLe_iff, tbl_vcLe_iff]
+  rcases Nat.lt_trichotomy (countOcc feature a) (countOcc feature b) with h | h | h
+  · exact Or.inr (Or.inl h)
+  · rcases tbl_catLt_total enumOrder a b with h' | h'
+    · exact Or.inr (Or.inr ⟨h.symm, h'⟩)
+    · exact Or.inl (Or.inr ⟨h, h'⟩)
+  · exact Or.inl (Or.inl h)
+
+theorem tbl_vcLe_trans (enumOrder : Option (List String)) (feature : List (Option String)) (a b c : String)
+    (h1 : tbl_vcLe enumOrder feature a b = true) (h2 : tbl_vcLe enumOrder feature b c = true) :
+    tbl_vcLe enumOrder feature a c = true := by
+  rw [tbl_vcLe_iff] at *
+  rcases h1 with h1 | ⟨h1, h1'⟩ <;> rcases h2 with h2 | ⟨h2, h2'⟩
+  · left; omega
+  · left; omega
+  · left; omega
+  · right; exact ⟨by omega, tbl_catLt_trans enumOrder a b c h1' h2'⟩
+
+/-- `value_counts` is sorted by (count descending, natural order ascending) -/
+theorem tbl_vc_sorted (enumOrder : Option (List String)) (feature : List (Option String)) :
+    (tbl_vc enumOrder feature).Pairwise (fun a b => tbl_vcLe enumOrder feature a b = true) :=
+  List.pairwise_mergeSort (fun a b c => tbl_vcLe_trans enumOrder feature a b c)
+    (fun a b => tbl_vcLe_total enumOrder feature a b) _
+
+/-- a kept category comes before every pooled one in the (count desc, natural order asc) order -/
+theorem tbl_keep_before (enumOrder : Option (List String)) (nBins : Nat) (feature : List (Option String))
+    (a b : String) (ha : a ∈ tbl_keep enumOrder nBins feature) (hb : some b ∈ feature)
+    (hb' : b ∉ tbl_keep enumOrder nBins feature) : tbl_vcLe enumOrder feature a b = true := by
+  have hs := tbl_vc_sorted enumOrder feature
+  rw [← List.take_append_drop (tbl_sNBinsEf nBins feature - 1) (tbl_vc enumOrder feature)] at hs
+  have hbv : b ∈ tbl_vc enumOrder feature := (tbl_mem_vc enumOrder feature b).2 hb
+  rw [← List.take_append_drop (tbl_sNBinsEf nBins feature - 1) (tbl_vc enumOrder feature),
+    List.mem_append] at hbv
+  rcases hbv with hbv | hbv
+  · exact absurd hbv hb'
+  · exact (List.pairwise_append.1 hs).2.2 a ha b hbv
+
+theorem tbl_keep_sub (enumOrder : Option (List String)) (nBins : Nat) (feature : List (Option String))
+    (a : String) (ha : a ∈ tbl_keep enumOrder nBins feature) : some a ∈ feature :=
+  (tbl_mem_vc enumOrder feature a).1 (List.mem_of_mem_take ha)
+
+theorem tbl_keep_length (enumOrder : Option (List String)) (nBins : Nat) (feature : List (Option String)) :
+    (tbl_keep enumOrder nBins feature).length ≤ tbl_sNBinsEf nBins feature - 1 := by
+  unfold tbl_keep
+  rw [List.length_take]
+  omega
+
+variable {K : Type} [Field K] [LinearOrder K] [IsStrictOrderedRing K]
+
+/-- all labels that can occur in the binned string column -/
+def tbl_sUniverse (enumOrder : Option (List String)) (nBins : Nat) (feature : List (Option String)) :
+    List (Option String) :=
+  (if tbl_sHasNulls feature = 1 then [none] else []) ++
+  (if tbl_sNBinsEf nBins feature ≥ (tbl_vc enumOrder feature).length then (tbl_vc enumOrder feature).map some
+   else (tbl_keep enumOrder nBins feature).map some ++ [some (tbl_name enumOrder nBins feature)])
+
+theorem tbl_sHasNulls_le_one (feature : List (Option String)) : tbl_sHasNulls feature ≤ 1 := by
+  unfold tbl_sHasNulls; split <;> omega
+
+theorem tbl_one_le_sNBinsEf (nBins : Nat) (feature : List (Option String)) :
+    1 ≤ tbl_sNBinsEf nBins feature := by
+  unfold tbl_sNBinsEf; omega
+
+theorem tbl_sHasNulls_of_mem (feature : List (Option String)) (h : none ∈ feature) :
+    tbl_sHasNulls feature = 1 := by
+  unfold tbl_sHasNulls
+  have : feature.any (·.isNone) = true := List.any_eq_true.2 ⟨none, h, rfl⟩
+  simp [this]
+
+theorem tbl_sbins_subset (enumOrder : Option (List String)) (nBins : Nat) (feature : List (Option String)) :
+    (binString enumOrder nBins feature).bins ⊆ tbl_sUniverse enumOrder nBins feature := by
+  intro o ho
+  rw [tbl_binString_eq] at ho
+  unfold tbl_sUniverse
+  by_cases h : tbl_sNBinsEf nBins feature ≥ (tbl_vc enumOrder feature).length
+  · rw [if_pos h] at ho
+    rw [if_pos h, List.mem_append]
+    cases o with
+    | none => left; simp [tbl_sHasNulls_of_mem feature ho]
+    | some s =>
+      right
+      exact List.mem_map.2 ⟨s, (tbl_mem_vc enumOrder feature s).2 ho, rfl⟩
+  · rw [if_neg h] at ho
+    rw [if_neg h, List.mem_append]
+    simp only [List.mem_map] at ho
+    obtain ⟨v, hv, rfl⟩ := ho
+    cases v with
+    | none => left; simp [tbl_sHasNulls_of_mem feature hv]
+    | some s =>
+      right
+      simp only [Option.map_some]
+      by_cases hk : (tbl_keep enumOrder nBins feature).contains s = true
+      · rw [if_pos hk]
+        exact List.mem_append_left _ (List.mem_map.2 ⟨s, List.contains_iff_mem.1 hk, rfl⟩)
+      · rw [if_neg hk]
+        exact List.mem_append_right _ (by simp)
+
+theorem tbl_sUniverse_length (enumOrder : Option (List String)) (nBins : Nat) (feature : List (Option String)) :
+    (tbl_sUniverse enumOrder nBins feature).length ≤ (binString enumOrder nBins feature).nBins := by
+  rw [tbl_nBins_str]
+  unfold tbl_sUniverse
+  have h1 := tbl_sHasNulls_le_one feature
+  have h2 := tbl_one_le_sNBinsEf nBins feature
+  have h3 : (if tbl_sHasNulls feature = 1 then [(none : Option String)] else []).length = tbl_sHasNulls feature := by
+    split
+    · simp [*]
+    · simp; omega
+  rw [List.length_append, h3]
+  by_cases h : tbl_sNBinsEf nBins feature ≥ (tbl_vc enumOrder feature).length
+  · rw [if_pos h, if_pos h, List.length_map]; omega
+  · have := tbl_keep_length enumOrder nBins feature
+    rw [if_neg h, if_neg h, List.length_append, List.length_map, List.length_singleton]
+    omega
+
+/-- number of distinct labels (null bin included) is at most the returned `n_bins` -/
+theorem tbl_sbins_distinct_le (enumOrder : Option (List String)) (nBins : Nat) (feature : List (Option String)) :
+    (binString enumOrder nBins feature).bins.dedup.length ≤ (binString enumOrder nBins feature).nBins :=
+  le_trans (tbl_dedup_length_le _ _ (tbl_sbins_subset enumOrder nBins feature))
+    (tbl_sUniverse_length enumOrder nBins feature)
+
+theorem tbl_sNBins_le (enumOrder : Option (List String)) (nBins : Nat) (h2 : 2 ≤ nBins)
+    (feature : List (Option String)) : (binString enumOrder nBins feature).nBins ≤ nBins := by
+  rw [tbl_nBins_str]
+  have h1 := tbl_sHasNulls_le_one feature
+  have h3 : tbl_sNBinsEf nBins feature + tbl_sHasNulls feature ≤ nBins := by
+    unfold tbl_sNBinsEf; omega
+  split <;> omega
+
+variable {K : Type} [Field K] [LinearOrder K] [IsStrictOrderedRing K]
+
+theorem tbl_formatInteger_small (n : Nat) (h : n < 1000) : formatInteger n = toString n := by
+  have hd : (toString n).length ≤ 3 := by
+    rw [Nat.toString_eq_repr, Nat.length_repr_le_iff (by omega)]; exact h
+  have hmag : formatInteger.mag n 0 4 = 0 := by
+    unfold formatInteger.mag
+    have : ¬ (n ≥ 1000 * 1000 ^ 0 ∧ 0 < 4) := by omega
+    rw [if_neg this]
+  unfold formatInteger
+  simp only [hd, if_true, hmag]
+  have h1 : n / 1000 ^ 0 = n := by simp
+  have h2 : n % 1000 ^ 0 * 1000000 / 1000 ^ 0 = 0 := by simp [Nat.mod_one]
+  rw [h1, h2]
+  have h3 : (String.mk ((String.mk (List.replicate (6 - (toString 0).length) '0') ++ toString 0).toList.reverse.dropWhile (· = '0')).reverse).isEmpty = true := by decide
+  rw [if_pos h3]
+  show toString n ++ "" = toString n
+  simp
+
+/-- the pooled categories: distinct values that are not kept; there are `nRemaining` of them -/
+theorem tbl_pooled_count (enumOrder : Option (List String)) (nBins : Nat) (feature : List (Option String)) :
+    ((distinctVals feature).filter (fun s => !(tbl_keep enumOrder nBins feature).contains s)).length =
+      tbl_nRemaining enumOrder nBins feature := by
+  have hperm : (distinctVals feature).Perm (tbl_vc enumOrder feature) := (List.mergeSort_perm _ _).symm
+  rw [(hperm.filter _).length_eq]
+  unfold tbl_nRemaining tbl_keep
+  generalize tbl_sNBinsEf nBins feature - 1 = k
+  have hnd := tbl_vc_nodup enumOrder feature
+  generalize tbl_vc enumOrder feature = l at hnd
+  conv_lhs => rw [← List.take_append_drop k l]
+  rw [← List.take_append_drop k l] at hnd
+  have hdisj := (List.nodup_append.1 hnd).2.2
+  rw [List.filter_append]
+  have h1 : (List.take k l).filter (fun s => !(List.take k l).contains s) = [] := by
+    rw [List.filter_eq_nil_iff]
+    intro a ha
+    simp [ha]
+  have h2 : (List.drop k l).filter (fun s => !(List.take k l).contains s) = List.drop k l := by
+    rw [List.filter_eq_self]
+    intro a ha
+    have : a ∉ List.take k l := fun h => hdisj a h a ha rfl
+    simp [this]
+  conv_lhs =>
+    rw [List.take_append_drop k l]
+  rw [h1, h2, List.nil_append, List.length_drop]
+
 end MD
